@@ -1010,6 +1010,34 @@ example : (∀ x : ℝ, 0 ≤ x → 0 < polyD1 1 (1/2) 0 x) ∧
       ∃ a < 2, (if a = 0 then (1:ℝ) else 0) + (if a = 0 then 2 else 0) * 0 ≠ 0) := by
   refine ⟨fun x hx => by rw [polyD1_real]; nlinarith, fun x => poly_hasDerivAt2 _ _ _ x, by rw [polyD2_real]; norm_num, 0, by norm_num, by norm_num⟩
 
+/-- **FastTriggs over-estimates the curvature of a concave kernel** (pass 11; corollary of `robust_loss_second_derivative` and
+`fastTriggs_hess`). For residuals affine in a parameter coordinate and a kernel with `ρ' ≥ 0`, `ρ'' = (ρ')'` and `ρ'' ≤ 0` at the
+evaluated items (every built-in kernel: `builtin_slope_pos_curvature_nonpos`), the second derivative `S` of the reported loss exists
+and `S ≤ 2·(J'ᵀJ')` for FastTriggs' Gauss–Newton matrix: the dropped term `4Σρ''(J_iᵀR_i)²` is non-positive, so the quadratic model the
+optimiser minimises majorises the loss' curvature (why the docstring calls FastTriggs the *stable* version). -/
+theorem fastTriggs_hess_majorizes_second_derivative (ρ1 ρ2 : ℝ → ℝ) (hpos : ∀ x, 0 ≤ x → 0 ≤ ρ1 x) (N d : Nat)
+    (r0 j : Nat → Nat → ℝ) (t : ℝ)
+    (hρ : ∀ i < N, HasDerivAt ρ1 (ρ2 (normSq d fun a => r0 i a + j i a * t)) (normSq d fun a => r0 i a + j i a * t))
+    (hconc : ∀ i < N, ρ2 (normSq d fun a => r0 i a + j i a * t) ≤ 0) :
+    ∃ S, HasDerivAt (fun s => 2 * ∑ i ∈ range N, ρ1 (normSq d fun a => r0 i a + j i a * s) *
+            ∑ a ∈ range d, j i a * (r0 i a + j i a * s)) S t ∧
+      S ≤ 2 * JtJ N d (fun i => fastOf ρ1 d (fun a => r0 i a + j i a * t) (fun a _ => j i a)) 0 0 := by
+  refine ⟨_, robust_loss_second_derivative ρ1 ρ2 N d r0 j t hρ, ?_⟩
+  rw [fastTriggs_hess N d (fun i a => r0 i a + j i a * t) (fun i a _ => j i a) ρ1 hpos 0 0]
+  apply mul_le_mul_of_nonneg_left _ (by norm_num : (0:ℝ) ≤ 2)
+  apply sum_le_sum
+  intro i hi
+  have hsym : ∑ a ∈ range d, (r0 i a + j i a * t) * j i a = ∑ a ∈ range d, j i a * (r0 i a + j i a * t) :=
+    sum_congr rfl fun a _ => by ring
+  rw [hsym]
+  have hc := hconc i (mem_range.mp hi)
+  have hsq := mul_self_nonneg (∑ a ∈ range d, j i a * (r0 i a + j i a * t))
+  nlinarith
+
+/-- non-vacuity: Cauchy(δ = 1) satisfies the three kernel hypotheses at every `x ≥ 0` -/
+example {x : ℝ} (hx : 0 ≤ x) : 0 ≤ cauchyD1 1 x ∧ HasDerivAt (cauchyD1 1) (cauchyD2 1 x) x ∧ cauchyD2 1 x ≤ 0 :=
+  ⟨(cauchyD1_pos one_pos hx).le, cauchy_hasDerivAt2 one_pos hx, cauchyD2_nonpos one_pos hx⟩
+
 /-! ### the `weight=` branch (outside C09's quantifier; modelled for honesty about the scope of the theorem above) -/
 /-- **The `weight=` branch (outside C09's quantifier), FastTriggs**: `J'ᵀ W R' = Σ_i ρ'(‖R_i‖²) · J_iᵀ W_i R_i` for every per-item
 weight matrix. Note what this is the gradient of: *not* of the reported loss `Σρ(‖R_i‖²)` (which ignores `W`) and not of
